@@ -273,10 +273,10 @@ CHECKS["C17"] = {
 CHECKS["C11"] = {
     "level": "model_checking",
     "technique": "explicit-state BFS over object operations on the real TrafficController + controlled-scheduler enumeration of request/update interleavings (TrafficController, mux) + exhaustive old-generation check per filter kind",
-    "level_text": "(a) for 10 filter kinds x {same, changed spec} x 0-2 earlier requests: after the real Pipeline.Inherit (which closes the old generation) a request still holding the old generation and one on the new "
+    "level_text": "(a) for 14 filter kinds x {same, changed spec} x 0-2 earlier requests: after the real Pipeline.Inherit (which closes the old generation) a request still holding the old generation and one on the new "
                   "generation complete without panic; (b) BFS over create/update/apply/delete of pipelines p1,p2 and a traffic gate: after every operation every other object still resolves through the gate's mapper "
                   "and answers with its own generation, Apply of an equal spec is a no-op; (c) 2 requests || ApplyPipeline || Delete+Create under the scheduler: no request fails or mixes generations, "
-                  "a request started after the update sees the new generation; (d) requests || mux.reload under the scheduler: every per-request option comes from one generation; (a2) a filter that keeps its name but changes its kind (all ordered pairs of 10 kinds): the updated pipeline behaves like a fresh one; "
+                  "a request started after the update sees the new generation; (d) requests || mux.reload under the scheduler: every per-request option comes from one generation; (a2) a filter that keeps its name but changes its kind (all ordered pairs of 14 kinds): the updated pipeline behaves like a fresh one; "
                   "(e) reload differential: for every ordered pair of 7 server specs (rules, body limit, route cache, server-level ipFilter) x 0-2 warm-up requests, after reload every request is answered exactly as by a fresh mux built from the new spec",
     "level_note": "sync of trafficcontroller.go and sync/atomic of mux.go replaced by gated shims; a recording filter yields between the filters of a pipeline and inside its Init / Inherit; unit httpruntime (shared with C17): the real HTTPServer runtime on an in-memory listener, hot updates of rules and maxConnections; updates that need a listener restart are not covered",
     "rule": "choice trees: spec change / request count; BFS canonical state = live objects with generation; scheduler choices; distinct_nontrivial = distinct outcome classes",
@@ -296,7 +296,7 @@ CHECKS["C11"] = {
 CHECKS["C13"] = {
     "level": "exploration",
     "technique": "deviation-bounded exhaustive enumeration (choice-tree DFS) of specs around a base spec per kind; accepted specs are instantiated and exercised on the real objects",
-    "level_text": "for 10 filter kinds, Pipeline, both resilience kinds and the GlobalFilter / HTTPServer / MQTTProxy specs: every spec within the deviation bound of a base spec (generic deviations generated "
+    "level_text": "for 14 filter kinds (RateLimiter, Mock, Request/ResponseAdaptor, Validator, Fallback, CORSAdaptor, Request/ResponseBuilder, Proxy, CertExtractor, HeaderToJSON, MeshAdaptor, RemoteFilter; the Kafka, WASM, header-lookup and MQTT-protocol kinds need services or another protocol and are not instantiated), Pipeline, both resilience kinds and the GlobalFilter / HTTPServer / MQTTProxy specs: every spec within the deviation bound of a base spec (generic deviations generated "
                   "from the YAML tree: field absent, empty, zero, negative, huge, 0s, unsupported string, flipped bool, empty list/map; plus a hand-written menu of optional fields and cross references) "
                   "is validated the way the admin API does (supervisor.NewSpec of the enclosing pipeline / object); every accepted spec is created, initialised, serves 6 requests, is inherited and closed; no step may panic",
     "level_note": "kinds that need an external service to start (Kafka, WasmHost, RemoteFilter, HeaderLookup, etcd-backed basic auth) are out of scope; HTTPServer/MQTTProxy/GlobalFilter specs are only validated, not started (sockets)",
